@@ -14,6 +14,36 @@ CLAIMS = {
     },
 }
 
+def _c(text, note_extra="", category="proof", technique=None):
+    return {"category": category, "technique": technique or TECH, "text": text, "note": COMMON_NOTE + note_extra}
+
+
+CLAIMS.update({
+    "C03": _c("Stoichiometry tuples, reaction order and MassAction.active_conc_prod are proved for reactions of ANY size (symbolic maps, quantified postconditions, loop invariant: only active reactants enter the product). "
+              "Reaction.rate, ReactionSystem.rates (sum over reactions, every substance has a rate, order independence, stirred-tank feed terms), law_of_mass_action_rates, dCdt_list and the stoichiometry matrices are proved for all coefficients, "
+              "concentrations and rate constants at fixed system shapes (catalysts on both sides, inactive parts, sources, spectators). A bounded stand-in runs the same contracts natively on generated systems.",
+              "pow(x,n) with symbolic exponent is an uninterpreted function with the laws of 5.3; numpy object arrays are assumed to store/return elements."),
+    "C05": _c("composition_keys, composition_violation, check_balance (true iff every key of every reaction balances, ValueError iff not), the constructor's default checks (accepted iff balanced), composition_balance_vectors "
+              "(rows = keys incl. charge, columns = substances) and the identity B.(N^T r) = sum_r rate_r * violation_r (ring back end) are proved for all compositions/coefficients at fixed shapes; numerical-integration clauses are bounded (thorough tier).",
+              "Shape-bounded: four substances with partly missing keys (charge-only, empty), two reactions with inactive parts."),
+    "C11": _c("intdiv proved for all integers; integer scaling / negation / addition / subtraction of equilibria (net stoichiometry, positivity, netted form, side swap, constant = product of powers), cancel and as_reactions proved for all "
+              "coefficients and constants at key layouts with species on opposite sides, same side and disjoint; eliminate is covered by an exhaustive bounded grid (sympy.primefactors is external).",
+              "pow(K,n) for symbolic integer n is uninterpreted with the laws of 5.3; histories of operations follow by induction from the per-operation contracts (stated, not mechanised in this round)."),
+    "C16": _c("Expr.arg/all_args/all_params (unique-key override replaces exactly one argument, fallbacks, defaults, nesting), the operator algebra incl. reflected forms and shortcuts, create_Poly (any number of coefficients, loop invariant; plus explicit degrees 0-3 with shift/reciprocal), "
+              "create_Piecewise, MassAction, Arrhenius, Eyring, EyringHS, Radiolytic, RampedTemp, SinTemp, arrhenius_equation, eyring_equation, ArrheniusParam/EyringParam (call, from_rateconst_at_T round trip, as_RateExpr inside a Reaction for orders 1-3), GibbsEqConst and MassActionEq "
+              "are proved equal to their defining formulas for all real arguments (ring/z3).",
+              "Backends are abstracted to the same real functions (5.3): equality of math/numpy/sympy floating point results and the with-units paths are bounded only. Fits (least_squares, curve_fit) are out of reach."),
+    "C17": _c("All seven closed forms are executed symbolically with an abstract backend and differentiated by the verifier: the ODE residual of the documented mechanism and the initial value are discharged by the exact field normaliser (ring) for all parameters; "
+              "every denominator/radicand is proved non-zero/non-negative for positive parameters (nlsat on atomised terms); evaluation under the attribute sets of math, numpy and sympy is proved not to raise.",
+              "exp/sqrt/tanh are uninterpreted with exp(a+b)=exp(a)exp(b), sqrt(x)^2=x, tanh'=1-tanh^2 (5.3); floating-point agreement of backends is bounded."),
+    "C18": _c("ionic_strength proved for sequences of ANY length (two loop invariants over None-initialised accumulators; warning emitted only if not neutral, silence only if nearly neutral within the code's tolerance; length mismatch raises), dict form at 1-3 ions; "
+              "A and B proved to have the Debye-Hueckel functional form on both code paths (ring), hard-coded factors tied to CODATA by data obligations; limiting/extended/Davies formulas, their limits (a->0, I->0) and the three activity products (loop invariants, any length) proved.",
+              "sqrt/exp per 5.3; with-units paths of A/B are compared with the numeric path on a grid using the real quantities package (data obligation) and in the bounded stand-in."),
+    "C19": _c("Under the unit abstraction 5.1 with generic units of symbolic scale ('any compatible unit'): water_density, water_viscosity, water_self_diffusion_coefficient, water_permittivity, Henry (incl. inverse), nernst_potential and electrical_mobility_from_D return the same SI value and the "
+              "right dimension whether called with plain numbers in documented units or with quantities; range warnings are proved to be emitted iff outside the documented range (and never when disabled); formulas equal the published ones; coefficients/anchors/shape as data obligations.",
+              "The `quantities` package is an ASSUMED contract (pyvc/qmodel.py), sampled against the real package by the bounded stand-ins of C09/C19. Temperatures in kelvin only. sulfuric_acid_density, density_from_concentration and lg_solubility_ratio are bounded only."),
+})
+
 _PENDING = "contracts for this property are not built yet in this round (work in progress; see DESIGN.md section 7 for the plan)"
 NOT_APPLICABLE = {p: _PENDING for p in ["C%02d" % i for i in range(1, 21)] if p not in CLAIMS}
 
